@@ -299,4 +299,24 @@ def matchAll (objs : List (EndsIn K)) (tol : K) : List ObjIn :=
 
 end Match
 
+/-! ### the shortest segment (`Geobj.min_seglen`, `Geo_Container.compute_segments`) -/
+
+section MinSeg
+variable {K : Type}
+
+/-- minimum of a non-empty list, `d` for the empty one (`min (s.seg_len for s in segments)`) -/
+def minOf [LT K] [DecidableRel (α := K) (· < ·)] (d : K) : List K → K
+  | [] => d
+  | x :: r => r.foldl (fun m y => if y < m then y else m) x
+
+/-- shortest segment of a structure: the minimum over the objects of the minimum over their segment lengths -/
+def minSegLen [LT K] [DecidableRel (α := K) (· < ·)] (d : K) (objs : List (List K)) : K :=
+  minOf d (objs.map (minOf d))
+
+/-- the former rule: a tapered wire and a curve reported the length of their *first* segment -/
+def minSegLenFirst [LT K] [DecidableRel (α := K) (· < ·)] (d : K) (objs : List (List K)) : K :=
+  minOf d (objs.map (fun l => l.headD d))
+
+end MinSeg
+
 end Pmn.Topo
